@@ -226,6 +226,7 @@ class Item:
              r.map_or(d, |x| e)     -> (match r { Some(x) => e, None => d })
              r.map_or_else(f, |x| e) -> (match r { Some(x) => e, None => f() })
              r.is_some_and(|x| e)   -> (match r { Some(x) => e, None => false })
+             r.filter(|x| e)        -> (match r { Some(v) => { let keep = { let x = &v; e }; if keep { Some(v) } else { None } }, None => None })
              r.ok_or_else(|| e)     -> (match r { Some(verif_v) => Ok(verif_v), None => Err(e) })
              r.unwrap_or_else(|| e) -> (match r { Some(verif_v) => verif_v, None => e })
         The receiver r is the postfix chain in front of the call.  A closure whose body contains `?` or `return` is left alone (control flow would change).
@@ -237,7 +238,7 @@ class Item:
             done = False
             for k, (kind, a, b) in enumerate(toks):
                 name = src[a:b]
-                if kind != "ident" or name not in ("map", "and_then", "map_or", "map_or_else", "is_some_and", "ok_or_else", "unwrap_or_else"):
+                if kind != "ident" or name not in ("map", "and_then", "map_or", "map_or_else", "is_some_and", "ok_or_else", "unwrap_or_else", "filter"):
                     continue
                 if k < 1 or src[toks[k - 1][1]] != "." or k + 1 >= len(toks) or src[toks[k + 1][1]] != "(":
                     continue
@@ -332,6 +333,9 @@ class Item:
                     new = "(match %s { Some(%s) => %s, None => (%s)() })" % (recv, param, body, default)
                 elif name == "is_some_and":
                     new = "(match %s { Some(%s) => %s, None => false })" % (recv, param, body)
+                elif name == "filter":
+                    # Option::filter hands the closure a REFERENCE to the value and keeps the value when it answers true
+                    new = "(match %s { Some(verif_f) => { let verif_keep = { let %s = &verif_f; %s }; if verif_keep { Some(verif_f) } else { None } }, None => None })" % (recv, param, body)
                 elif name == "ok_or_else":
                     new = "(match %s { Some(verif_v) => Ok(verif_v), None => Err(%s) })" % (recv, body)
                 else:
